@@ -115,12 +115,38 @@ def _second_opinion(pid, repo, tier, seed, rep):
                     o.detail = (o.detail or "") + " [decided on the normal form of the program: %s]" % form
                     rep.add(o)
                 adopted.append(r)
+            # per function: an obligation speaks about one function, and the normal form preserves the behaviour of every
+            # function; where the rule as a whole is not settled on the normal form (the rewriting may take ANOTHER function of
+            # the rule out of the recognised fragment), the contested functions are still read there one by one
+            for r in contested:
+                if r in adopted or counts.get(r, 0) < max(1 if rep.floors.get(r, 0) > 0 else 0, (rep.floors.get(r, 0) + 1) // 2):
+                    continue
+                bad = [o for o in rep.obs if o.rule == r and (o.status == UNDECIDED or (o.status == VIOLATION and o.known is None))]
+                settled = []
+                for fn in sorted({o.func for o in bad}):
+                    obs2 = [o for o in rep2.obs if o.rule == r and o.func == fn and o.status in (HOLDS, VIOLATION, UNDECIDED)]
+                    if not obs2 or any(o.status == UNDECIDED or (o.status == VIOLATION and o.known is None) for o in obs2):
+                        continue
+                    rep.obs = [o for o in rep.obs if not (o.rule == r and o.func == fn)]
+                    rep._bykey = {k: v for k, v in rep._bykey.items() if not (v.rule == r and v.func == fn)}
+                    for o in obs2:
+                        o.detail = (o.detail or "") + " [decided on the normal form of the program: %s]" % form
+                        rep.add(o)
+                    settled.append(fn)
+                if settled:
+                    rep.note("rule %s: the obligations of %s were contested on the source as written and are decided on its normal form (%s)"
+                             % (r, ", ".join(settled), form))
+                    rep.stats.setdefault("normal_form", dict(stats, rules_adopted=list(all_adopted))).setdefault("functions_adopted", []).extend(
+                        "%s:%s" % (r, fn) for fn in settled)
+                    if not any(o.rule == r and (o.status == UNDECIDED or (o.status == VIOLATION and o.known is None)) for o in rep.obs):
+                        adopted.append(r)
+                        all_adopted.append(r)
             if adopted:
                 rep.note("rule(s) %s were contested on the source as written and are decided on its normal form (%s: %d helper calls inlined, "
                          "%d loops rewritten, %d locals renamed in %d files)" % (", ".join(adopted), form, stats["calls_inlined"],
                                                                                stats.get("loops_rewritten", 0), stats.get("locals_renamed", 0),
                                                                                stats["files_changed"]))
-                all_adopted += adopted
+                all_adopted += [r for r in adopted if r not in all_adopted]
                 rep.stats["normal_form"] = dict(stats, rules_adopted=list(all_adopted))
                 # a rule adopted with violations stays as it is; the others leave the contested set
                 contested = [r for r in contested if r not in adopted]
